@@ -71,6 +71,7 @@ SfnTags(e) ==
   IF e.panic THEN V("Sfn", "panic parsing a name")
   ELSE IF DontCare(cs) THEN {}
   ELSE IF Valid(cs) # e.ok THEN V("Sfn", IF e.ok THEN "an invalid 8.3 name was accepted" ELSE "a valid 8.3 name was refused")
+  ELSE IF e.tok # e.ok \/ (e.ok /\ e.tname # e.name) THEN V("Sfn", "the ToShortFileName conversion of a &str answers differently from create_from_str")
   ELSE IF ~e.ok THEN {}
   ELSE (IF ~Matches(e.name, cs) THEN V("Sfn", "accepted name is not the padded upper-cased 11 bytes") ELSE {})
     \cup (IF e.reparse # e.name THEN V("Sfn", "printing a parsed name and parsing it again gives other bytes") ELSE {})
